@@ -401,14 +401,16 @@ def prog_C20(ctx):
 
 def prog_C04(ctx):
     G['step_translate'](ctx)
-    G['step_proofs'](ctx, ['Dc4bcVerif.Props.C04', 'Dc4bcVerif.Props.C02'])
+    G['step_proofs'](ctx, ['Dc4bcVerif.Props.C04', 'Dc4bcVerif.Props.C04Src', 'Dc4bcVerif.Props.C02'])
     ctx.cov['trusted_base'] = BASE_TRUSTED + [
         'symbolic model Model/Sym.lean: the terms a machine exports are written by hand from airgapped/dkg.go and airgapped/bls.go; cryptography is perfect by construction (ECIES, Schnorr, BLS, exponentiation are constructors without inverses)',
         'secretdiff (no model stream: the real code under monitors): three key generations (same participants; same and different threshold) and two signing batches on the same real machines; every result file, every board message and every file of every airgapped database is searched for every secret read through the verif hooks (long-term key, seed, every polynomial coefficient, every BLS share) raw, reversed, hex, HEX, base64 std/url with and without padding, also inside JSON-nested base64 to depth 4; every (deal, machine key) pair is tried with ecies.Decrypt; five wrong passwords per machine after a correct unlock in the same process; shares, public polynomials and dealer coefficients of all pairs of rounds are compared',
+        'translator: every mention of the long-term private key and of the BLS share in packages airgapped and dkg with the call that consumes it (Gen/SecretUses.lean), regenerated on every run; Props/C04Src.lean fixes the list and the set of consuming callees (none of which prints)',
+        'secretdiff, faulty operations: a machine with a participant\'s mnemonic is fed mutated variants of every operation that participant received (JSON leaves, fields carried over from a sibling entry, identifiers of every short length, type confusion; 25 sampled per operation in quick plus all sibling-field variants, all in thorough) and every answer - result file or refusal text - is searched like the genuine results; numbers are also searched as printed numbers (hex without leading zero bytes, decimal)',
         'not covered: process memory, swap, side channels, strength of scrypt/AES-GCM/ECIES; the base seed itself is stored in the clear in the database (the property names the private key and the shares as encrypted at rest, not the seed; recorded in DESIGN.md as an observation)']
     ctx.cov['rule'] = 'quick: (3,2); thorough: (3,2),(2,2),(4,3),(4,2); all outputs of the three rounds and two batches'
     st = monitor_only(ctx, 'secretdiff', ['C04'], 'secret_scan')
     if st:
         ctx.cov.update(evaluations=st['Searches'] + st['DealPairs'] + st['WrongPasswords'] + st['RoundPairs'], distinct_nontrivial=st['Secrets'] + st['Haystacks'], exhaustive=False,
-                       samples=[], input_histogram=dict(secrets=st['Secrets'], haystacks=st['Haystacks'], deal_key_pairs=st['DealPairs'], wrong_passwords=st['WrongPasswords'], round_pairs=st['RoundPairs']),
+                       samples=[], input_histogram=dict(secrets=st['Secrets'], haystacks=st['Haystacks'], answers_to_faulty_operations=st.get('FaultyAnswers', 0), deal_key_pairs=st['DealPairs'], wrong_passwords=st['WrongPasswords'], round_pairs=st['RoundPairs']),
                        traces_validated_against_impl=0)
